@@ -10,7 +10,7 @@ def run(ctx):
     ctx.functions += ["source_utils.filter_nocl_comment_tokens", "Token.is_comment", "scope_utils._filter_nocl_scopes (part 2)", "Scanner.scan_file (part 2)"]
     alpha = " nocl;,x" if ctx.quick() else " noclNO;,x#"
     nb = 4 if ctx.quick() else 5
-    ctx.bounds = {"marked": "leader in {#, //, /*} x 0..3 blanks x every letter-case combination of 'nocl' x 8 tails x 4 comment kinds x any line",
+    ctx.bounds = {"marked": "leader in {#, //, /*} x 7 gaps (0, 1, 2, 12, 40 blanks, tab, mixed) x every letter-case combination of 'nocl' x 8 tails x 4 comment kinds x any line",
                   "unmarked": f"leader x 0..1 blanks x every body of length 1..{nb} over the alphabet {alpha!r}"}
     ctx.assumptions += ["S-lex: which tokens Pygments classifies as comments is not part of this check", "string parts are drawn from concrete pools by symbolic index (str.lower/strip on symbolic strings are not decidable with CrossHair): the verdict is for every combination of the pools, not for every string"]
     ctx.outside += ["comment texts outside the pools (e.g. non-ASCII letters whose lower-case form is ASCII)", "';' leader (no supported language uses it)"]
